@@ -172,8 +172,10 @@ def prop_table(ctx, case):
         recs_alias = []
         for i, (tid, code, q, data) in enumerate(evs):
             if isinstance(code, str) and code in alias:
-                if q in (1, 3) or (tid, code) not in per:
-                    per[(tid, code)] = alias[code] if S.expand_words(case['seed'] + 11, i)[0] % 2 else byname[code]
+                # all records of one (thread, name) use one of the two ids for the whole stream (the kernel logs an
+                # operation under one id; switching ids inside a START..END window would be a different stream)
+                if (tid, code) not in per:
+                    per[(tid, code)] = alias[code] if S.expand_words(case['seed'] + 11, len(per))[0] % 2 else byname[code]
                 ident = per.get((tid, code), byname[code])
             else:
                 ident = byname[code] if isinstance(code, str) else code
